@@ -124,3 +124,14 @@ def model_text(m, limit=60):
             pass
     items.sort()
     return '; '.join(items[:limit])
+
+
+def forall(vs, body, patterns=None):
+    """Quantifier with E-matching patterns; falls back to z3's own choice when a pattern is not expressible
+    (a term containing if-then-else, e.g. a map updated under a condition)."""
+    if patterns:
+        try:
+            return z3.ForAll(vs, body, patterns=[z3.simplify(p) for p in patterns])
+        except z3.Z3Exception:
+            pass
+    return z3.ForAll(vs, body)
